@@ -201,6 +201,7 @@ type rpcState struct {
 	hdr          metadata.MD
 	trailer      metadata.MD
 	recvd        []recvRec
+	recvBytes    [][]byte // framing oracle: the messages as delivered
 	// wire
 	streams     []streamRef // streams that carried this RPC (client HEADERS), in order
 	peerStreams []*peerStream
@@ -840,6 +841,9 @@ func (w *run) noteRecv(st *rpcState, b []byte, cs grpc.ClientStream) {
 	}
 	ok := tap.CheckPat(b, st.r.ID^uint32(att)<<24, 's', idx, 0) < 0
 	st.recvd = append(st.recvd, recvRec{n: len(b), att: att, patOK: ok, at: time.Now()})
+	if w.sc.has("framing") {
+		st.recvBytes = append(st.recvBytes, b)
+	}
 	w.e.Logf("rpc %d received message %d (att %d) len %d", st.r.ID, idx, att, len(b))
 }
 
